@@ -42,6 +42,15 @@ def r101(chk, m):
         fn = m.find_method(c, 'invoke')
         chk.analysed(fn)
         normal, raised = flow.function_exits(fn.node, (0, 0), pushpop_transfer)
+        if normal != {(0, -1)}:
+            # not visible in the shape of this function (helpers, context managers, delegation): interpreted with a recording context
+            from .c04 import semantic_pairing
+            sem = semantic_pairing(m, fn, follow=lambda fname, node, info: getattr(node, 'name', '') == 'invoke' or info is None)
+            A.IMPRECISION[:] = []
+            if sem is None:
+                chk.undecided(R, 'Array.%s.invoke' % cname, 'the effect of %s on the context stack is not determined' % fn.fullname, chk.where(fn))
+                continue
+            normal = sem
         chk.verdict(R, 'Array.%s.invoke' % cname, normal == {(0, -1)},
                     'Array.%s.invoke resolves to %s with (net, lowest) %s; expected pop then push = {(0, -1)}'
                     % (cname, fn.fullname, sorted(normal)), chk.where(fn), fn.fullname)
@@ -55,7 +64,18 @@ def r101(chk, m):
         calls = [M.call_name(c) for c in M.calls_in(fn.node)]
         normal, raised = flow.function_exits(fn.node, (0, 0), pushpop_transfer)
         ok = normal == {(0, -1)} or (normal == {(0, 0)} and any(re.search(r'EndRow\.invoke$', c) for c in calls))
-        chk.verdict(R, 'eqnarray.EndRow.invoke', ok, 'eqnarray.EndRow.invoke neither pops/pushes nor delegates to Array.EndRow.invoke: %s' % calls, chk.where(fn))
+        if not ok:
+            from .c04 import semantic_pairing
+            sem = semantic_pairing(m, fn, follow=lambda fname, node, info: getattr(node, 'name', '') == 'invoke' or info is None)
+            A.IMPRECISION[:] = []
+            if sem is None:
+                chk.undecided(R, 'eqnarray.EndRow.invoke', 'the effect of eqnarray.EndRow.invoke on the context stack is not determined', chk.where(fn))
+            else:
+                chk.verdict(R, 'eqnarray.EndRow.invoke', sem == {(0, -1)},
+                            'eqnarray.EndRow.invoke, interpreted with a recording context, has (net, lowest) %s; expected pop then push = {(0, -1)}'
+                            % sorted(sem), chk.where(fn))
+        else:
+            chk.ok(R, 'eqnarray.EndRow.invoke', str(sorted(normal)))
 
 
 # ---------------------------------------------------------------------------
@@ -224,6 +244,9 @@ def r102(chk, m):
         me.attrs.update(attrs)
         me.attrs['attributes'] = {}
         me.attrs['ownerDocument'] = d.doc
+        # the context: push and pop are events however they are reached (a local alias, a private context manager of Context)
+        d.doc.attrs['context'] = A.Obj('context', {'pop': A.Sym('extfunc:the.context.pop', truthy=True), 'push': A.Sym('extfunc:the.context.push', truthy=True),
+                                                   'top': A.Sym('frame', truthy=True)}, cls=m.cls('plasTeX.Context', 'Context'))
         tex = A.Obj('tex', {})
 
         def fmt(s, v):
